@@ -1,4 +1,4 @@
-CONSTANT Polys = {11, 19, 37, 131}
+CONSTANT Polys = {11, 19, 37}
 CONSTANT IrrMax = 300
 INIT Init
 NEXT Next
